@@ -3,6 +3,12 @@
 # Analyses /repo's current working tree from source (nothing cached between runs),
 # prints VIOLATION / KNOWN-FINDING lines, rewrites evidence/<id>.json.
 # Exit 0: all obligations discharged (known findings listed); 1: violation; 2: checker could not run.
+#
+# thorough = quick rules + whole-program closures (EDGE-C) + positive controls: every
+# confirmed seeded change for this property (seeded/<id>-*/patch.diff) is applied to a scratch
+# copy of the current tree OUTSIDE /repo and /verif, analysed (never executed), and must be
+# reported; the scratch copy is removed at once. A control whose patch does not apply to the
+# current tree is skipped (recorded in the evidence), never counted as a failure.
 set -u
 id=${1:?property id}
 tier=${2:-${VERIF_TIER:-quick}}
@@ -14,9 +20,33 @@ if [ ! -x "$bin" ] || [ -n "$(find "$here/checker" -name '*.go' -newer "$bin" -p
 fi
 repo=${VERIF_REPO:-/repo}
 rm -f "$here/evidence/$id.json"
-"$bin" -repo "$repo" -verif "$here" -property "$id" -tier "$tier"
-rc=$?
-if [ "$tier" = thorough ] && [ $rc -eq 0 ] && [ -x "$here/fixtures/run_controls.sh" ]; then
-  "$here/fixtures/run_controls.sh" "$id" || rc=$?
+controls=""
+crc=0
+if [ "$tier" = thorough ]; then
+  controls=$(mktemp /tmp/argverif-controls.XXXXXX)
+  echo "[" > "$controls"; first=1
+  for sd in "$here"/seeded/$id-* "$here"/fixtures/$id-*; do
+    [ -f "$sd/patch.diff" ] || continue
+    name=$(basename "$sd")
+    scratch=$(mktemp -d /tmp/argverif-ctl.XXXXXX)
+    cp -r "$repo"/. "$scratch"/ 2>/dev/null; rm -rf "$scratch/.git"
+    status=skipped-patch-does-not-apply; rules=""
+    if (cd "$scratch" && patch -p1 -s --no-backup-if-mismatch < "$sd/patch.diff" >/dev/null 2>&1); then
+      vd=$(mktemp -d /tmp/argverif-ctlv.XXXXXX); cp "$here/known_findings.json" "$vd/" 2>/dev/null
+      out=$("$bin" -repo "$scratch" -verif "$vd" -property "$id" -tier quick 2>&1); rc=$?
+      rules=$(echo "$out" | grep -oE "rule=[A-Z0-9-]+" | sort -u | sed 's/rule=//' | tr '\n' ' ')
+      if [ $rc -eq 1 ]; then status=reported; elif [ $rc -eq 2 ]; then status=not-analysable; else status=MISSED; crc=2; fi
+      rm -rf "$vd"
+    fi
+    rm -rf "$scratch"
+    [ $first -eq 1 ] || echo "," >> "$controls"; first=0
+    printf '{"control":"%s","status":"%s","rules":"%s"}' "$name" "$status" "$rules" >> "$controls"
+    [ "$status" = MISSED ] && echo "CONTROL-FAILED property=$id positive control $name (a confirmed breaking change) was not reported" >&2
+  done
+  echo "]" >> "$controls"
 fi
+"$bin" -repo "$repo" -verif "$here" -property "$id" -tier "$tier" ${controls:+-controls "$controls"}
+rc=$?
+[ -n "$controls" ] && rm -f "$controls"
+if [ $rc -eq 0 ] && [ $crc -ne 0 ]; then rc=$crc; fi
 exit $rc
